@@ -15,7 +15,7 @@ use exec::*;
 use layout::*;
 use vcommon::{json, Report, Tier, Value};
 
-const S: fn(u16, u8) -> Shape = Shape::new;
+const S: fn(u16, u16) -> Shape = Shape::new;
 
 fn shapes8() -> Vec<Shape> {
     vec![S(1, 1), S(2, 2), S(4, 4), S(0, 1), S(3, 1), S(8, 8), S(0, 4), S(12, 4)]
@@ -29,7 +29,7 @@ fn shapes14() -> Vec<Shape> {
 }
 
 fn shapes_gen() -> Vec<Shape> {
-    let u = |s: u16, a: u8| Shape { size: s, align: a, uninit: true };
+    let u = |s: u16, a: u16| Shape { size: s, align: a, uninit: true };
     vec![S(1, 1), S(4, 4), S(0, 1), S(3, 1), S(8, 8), S(12, 4), u(2, 2), u(8, 4)]
 }
 
@@ -115,6 +115,12 @@ fn passes_inner(prop: &str, tier: Tier) -> Vec<Bounds> {
                 // deeper still and narrower: six data in the first variant (three padding gaps under
                 // the append strategies), three additions into them, one more close; no removals
                 v.push(narrow(vec![6, 3, 1], vec![0, 0, 0], vec![S(1, 1), S(8, 8), S(2, 2)]));
+                // four removals in one `basic` close (a removal path that only starts at four data)
+                let mut four = narrow(vec![6, 1, 1], vec![0, 1, 4], vec![S(4, 4), S(1, 1)]);
+                four.strategies = vec![1, 3];
+                v.push(four);
+                // an alignment beyond 256 (paddings that do not fit a byte)
+                v.push(narrow(vec![3, 1, 1], vec![0, 1, 1], vec![S(512, 512), S(1, 1)]));
                 if prop == "C01" || prop == "C02" {
                     // six data, then three removed and three added in one `simple` close (a wide hole
                     // split by an aligned datum, two exact fits in the holes behind it), then one more
